@@ -139,7 +139,8 @@ func ReadUint32(rd io.Reader) (uint32, error) {
 // ReadNBytes reads n bytes from the reader
 func ReadNBytes(n int, rd io.Reader) ([]byte, error) {
 	var b []byte = make([]byte, n)
-	num, err := rd.Read(b)
+	// a single Read may return less than n bytes without error, so read until b is full
+	num, err := io.ReadFull(rd, b)
 
 	// if num is correct, we are not interested in io.EOF errors
 	if num == n {
